@@ -246,4 +246,28 @@ example : ElaVerif.TxSig.checkTxSig .tx Fix.all toy ()
 /-- CRCProposalWithdraw payload version 1 is not exempt -/
 example : ElaVerif.TxSig.exempt .tx 0x29 1 = false ∧ ElaVerif.TxSig.exempt .tx 0x29 0 = true := by decide
 
+/-! ## ties: addresses with equal code hashes -/
+
+/-- key scripts for the tie witness: two 34-byte pushes, the first with a wrong push marker 0x20 (so
+    `IsMultiSig` says no, while `CheckMultiSigSignatures` — which never looks at the marker — parses it) -/
+def tieCode : Bytes := [0x51] ++ (0x20 :: 5 :: List.replicate 32 0) ++ (33 :: 6 :: List.replicate 32 0) ++ [0x52, 0xAE]
+/-- toy scheme keyed on the first key byte after the marker -/
+def toyT : Oracles Unit :=
+  ⟨fun _ => true, fun k _ s => k.head? == s.head? && k.head?.isSome, fun _ _ _ => false, fun c => c.take 3⟩
+
+open ElaVerif.TxSig in
+/-- **NEGATION: the verdict can depend on the order of tied addresses.** A transaction spends the
+    standard-prefixed and the multisig-prefixed address of `tieCode` (equal code hashes) and carries the
+    program twice, once signed and once unsigned.  If the sort leaves the standard-prefixed hash first it is
+    paired with the signed program... and the multisig-prefixed one with the unsigned program ⇒ rejected; in
+    the other order the unsigned program meets the signature-free fall-through and the signed one the
+    multisig check ⇒ accepted.  Go takes the hashes out of a map, so both orders occur on the real node
+    (replayed: `corpus/C05/witnesses.ops`, answer `err msNotEnough|ok`). -/
+theorem C05_tie_order_matters_false :
+    let t : Tx := ⟨0x02, 0, [⟨0x21, tieCode.take 3⟩, ⟨0x12, tieCode.take 3⟩], [],
+                   [⟨tieCode, sigOf 5⟩, ⟨tieCode, []⟩]⟩
+    checkTxSigWith .tx Fix.all toyT () t false false ≠ checkTxSigWith .tx Fix.all toyT () t true false ∧
+    (checkTxSigWith .tx Fix.all toyT () t false false = ok ∨ checkTxSigWith .tx Fix.all toyT () t true false = ok) := by
+  decide
+
 end ElaVerif.C05
